@@ -13,6 +13,25 @@ PROOF_NOTE = ("Trusted: Lean 4.33 kernel + axioms propext/Classical.choice/Quot.
               "tables/constants (Strophe/Gen). ")
 
 CLAIMED = {
+    "C06": dict(
+        engine="q", design="5.6",
+        technique="Lean 4 invariant + refinement theorems over arbitrary operation histories (induction over List Op) + full-state differential correspondence on a real connection object",
+        text=("For EVERY history of sends (user/library/SM), loop iterations under any per-write accept schedule, drops, SM "
+              "toggles and disconnects: wire ++ still-queued bytes = concatenation in queueing order of everything handed in "
+              "minus what drops took back (wire_is_fifo); run_fifo per iteration; drop_exact/drop_none characterise "
+              "xmpp_conn_send_queue_drop_element completely; queue length = user elements not started; counters = list "
+              "lengths in every reachable state. The model is tied to conn.c/event.c by comparing the COMPLETE internal queue "
+              "state of a real xmpp_conn_t (scripted conn_interface) with the model after every op."),
+        note=PROOF_NOTE + "Transport = scripted conn_interface; a dropped text is observed as a C string; allocation failures not modelled."),
+    "C14": dict(
+        engine="disc", design="5.14",
+        technique="Lean 4 theorems over the address-cursor / connect-loop model for every environment and loop schedule + differential correspondence on the real sock.c/resolver.c/event.c with libc wrapped at link time",
+        text=("attempt_order (connect(2) targets are always a prefix of the SRV-sorted candidate list), first_accept_wins, "
+              "failure_only_after_all, explicit_host_bypasses_srv, legacy_ssl_and_component_bypass, default ports pinned to "
+              "5222/5223/5347, CONNECT_TIMEOUT pinned to 5000 ms; srv_targets_sorted reuses C15.found_sorted. Tied to the real "
+              "code: res_query/getaddrinfo/socket/connect/getsockopt/select scripted per scenario, ordered list of "
+              "(address, port) passed to connect compared with the model and with an independent Python expectation."),
+        note=PROOF_NOTE + "Kernel/libc behaviour is scripted (refuse, late failure, hang, accept); first_accept_wins assumes the loop is run at least once per CONNECT_TIMEOUT (counter-example without it is a theorem)."),
     "C15": dict(
         engine="dns", design="5.15",
         technique="Lean 4 theorems (memory safety as unreachability of oobRead/oobWrite for every buffer, outcome consistency, sort correctness+stability, decode_correct against a relational RFC 1035 spec) + differential correspondence",
